@@ -63,7 +63,9 @@ func Pack(t *lex.Tables) (*Scanner, error) {
 	if len(t.StateMap) != 1 || t.StateMap[0] != 0 {
 		return nil, errors.New("multiple start states are not supported")
 	}
-	if t.SymbolMap[len(t.SymbolMap)-1].Start > 0xff {
+	// All bytes >= 0x80 get the transitions of the last symbol map segment (see below), so
+	// the rules must not distinguish between any two of them.
+	if t.SymbolMap[len(t.SymbolMap)-1].Start > 0x80 {
 		return nil, errors.New("only ASCII automatons are supported")
 	}
 
